@@ -85,7 +85,9 @@ def term_cfg(va_owner, tgp, instant, p1=None):
     p1 = dict(p1 or {})
     pods = [dict({"name": "p1", "owner": "replicaset", "dnd": "-", "tgps": 30, "pdb": "-", "pv": va_owner == "p1"}, **p1),
             {"name": "p2", "owner": "replicaset", "dnd": "-", "tgps": 30, "pdb": "-", "tol": True, "late": True,
-             "pv": va_owner == "p2"}]
+             "pv": va_owner == "p2"},
+            # bound directly (spec.nodeName) at any time: does not tolerate the taint, Karpenter has to drain it
+            {"name": "p3", "owner": "replicaset", "dnd": "-", "tgps": 30, "pdb": "-", "tol": False, "late": True, "pv": False}]
     return {"tgp": 120 if tgp else -1, "instant": bool(instant), "pods": pods, "orphanVA": va_owner == "orphan"}
 
 
@@ -119,8 +121,8 @@ def term_from_model(h, rng):
             steps.append({"a": a, "pod": e["pod"]})
         elif a == "PodStuck":
             steps.append({"a": "TickPodStuck", "pod": e["pod"], "d": rng.choice([0, 0, 5])})
-        elif a == "VolumeDetach":
-            steps.append({"a": "VolumeDetach", "pod": "" if st["vaOwner"] == "orphan" else st["vaOwner"]})
+        elif a in ("VolumeDetach", "VolumeDetachStart"):
+            steps.append({"a": a, "pod": "" if st["vaOwner"] == "orphan" else st["vaOwner"]})
         elif a == "NotReady":
             steps.append({"a": "Ready", "ready": False})
         elif a == "Ready":
@@ -144,8 +146,8 @@ def term_paths():
     # 1. NodeClaim deleted first, pod with a volume, graceful drain, volume detaches, instance terminates
     P.append(("claim-first", "registered", term_cfg("p1", False, False), [
         {"a": "DeleteClaim"}, {"a": "LcRec"}, {"a": "NodeRec"}, {"a": "QAll"}, {"a": "NodeRec"}, {"a": "PodGone", "pod": "p1"},
-        {"a": "NodeRec"}, {"a": "Tick", "d": 6}, {"a": "NodeRec"}, {"a": "VolumeDetach", "pod": "p1"}, {"a": "NodeRec"},
-        {"a": "InstanceGone"}, {"a": "NodeRec"}, {"a": "LcRec"}, {"a": "LcRec"}]))
+        {"a": "NodeRec"}, {"a": "Tick", "d": 6}, {"a": "NodeRec"}, {"a": "VolumeDetachStart", "pod": "p1"}, {"a": "NodeRec"}, {"a": "NodeRec"},
+        {"a": "VolumeDetach", "pod": "p1"}, {"a": "NodeRec"}, {"a": "InstanceGone"}, {"a": "NodeRec"}, {"a": "LcRec"}, {"a": "LcRec"}]))
     # 2. Node deleted first, TGP, the volume never detaches: the deadline releases the wait; tolerating pod binds late
     P.append(("node-first-tgp", "registered", term_cfg("p1", True, True), [
         {"a": "DeleteNode"}, {"a": "NodeRec"}, {"a": "LcRec"}, {"a": "NodeRec"}, {"a": "QAll"}, {"a": "PodBinds", "pod": "p2"},
@@ -188,8 +190,35 @@ def term_paths():
     # 9. orphan volume attachment, no TGP: waits until it detaches
     P.append(("orphan-va", "registered", term_cfg("orphan", False, True), [
         {"a": "DeleteClaim"}, {"a": "LcRec"}, {"a": "NodeRec"}, {"a": "QAll"}, {"a": "PodGone", "pod": "p1"}, {"a": "Tick", "d": 6},
-        {"a": "NodeRec"}, {"a": "NodeRec"}, {"a": "VolumeDetach", "pod": ""}, {"a": "NodeRec"}, {"a": "NodeRec"}, {"a": "LcRec"}, {"a": "LcRec"}]))
+        {"a": "NodeRec"}, {"a": "NodeRec"}, {"a": "VolumeDetachStart", "pod": ""}, {"a": "NodeRec"}, {"a": "Tick", "d": 30}, {"a": "NodeRec"},
+        {"a": "VolumeDetach", "pod": ""}, {"a": "NodeRec"}, {"a": "NodeRec"}, {"a": "LcRec"}, {"a": "LcRec"}]))
+    # 10. a drainable pod is bound directly to the node after Drained=True was persisted, while the controller waits for
+    #     the volume and then for the instance: it has to be drained again before the finalizer goes
+    P.append(("late-pod", "registered", term_cfg("p1", False, False), [
+        {"a": "DeleteClaim"}, {"a": "LcRec"}, {"a": "NodeRec"}, {"a": "QAll"}, {"a": "PodGone", "pod": "p1"}, {"a": "Tick", "d": 6},
+        {"a": "NodeRec"}, {"a": "PodBinds", "pod": "p3"}, {"a": "NodeRec"}, {"a": "VolumeDetach", "pod": "p1"}, {"a": "NodeRec"},
+        {"a": "QAll"}, {"a": "NodeRec"}, {"a": "InstanceGone"}, {"a": "NodeRec"}, {"a": "LcRec"}, {"a": "LcRec"}]))
     return P
+
+
+def term_late_binds(tier, rng):
+    """A non-tolerating, drainable pod is bound to the node between any two steps of any canonical path (in particular
+    after Drained=True was persisted and before the finalizer-removing reconcile), then the controllers carry on; in half
+    of them the cooperative tail keeps the pod running for a while (it is only evicted, the kubelet is slow)."""
+    behs = []
+    for name, kind, cfg, path in term_paths():
+        if kind not in ("registered", "registered-uninitialized"):
+            continue
+        pre = prelude(kind)
+        for pos in range(len(path) + 1):
+            for tail in ("settle", "as-is"):
+                steps = copy.deepcopy(path)
+                steps.insert(pos, {"a": "PodBinds", "pod": "p3"})
+                end = SETTLE if tail == "settle" else [{"a": "NodeRec"}, {"a": "InstanceGone"}, {"a": "NodeRec"}, {"a": "LcRec"}] + SETTLE
+                behs.append({"cfg": cfg, "steps": pre + steps + end, "tag": "latebind:%s:%d:%s" % (name, pos, tail)})
+    if tier == "quick":
+        behs = rng.sample(behs, 90)
+    return behs
 
 
 def term_systematic(tier, rng):
@@ -236,6 +265,10 @@ def term_systematic(tier, rng):
                         + ([{"actor": actor, "verb": "provGet", "kind": "-", "sub": "-", "err": "-"}] if pg else [])
                     behs.append({"cfg": dict(cfg, perm=perm), "steps": pre + [{"a": "PermOn"}] + path + SETTLE,
                                  "tag": "permanent:%s:%s.%s" % (name, ctl, call)})
+        if tier == "quick":   # a third of the permanent-error behaviours
+            perm = [b for b in behs if b["tag"].startswith("permanent:%s:" % name)]
+            for b in rng.sample(perm, len(perm) - len(perm) // 3):
+                behs.remove(b)
         # faults in the launch prelude itself (before deletion): every lifecycle write of the launching reconcile
         for f in (api("patch", "NodeClaim", "-", 1), api("patch", "NodeClaim", "-", 2), api("patch", "NodeClaim", "status", 1)):
             for restart in (False, True):
@@ -255,12 +288,12 @@ def term_fine(tier, rng):
             continue
         cfg = dict(cfg, logReads=True)
         va = "" if cfg["orphanVA"] else next((p["name"] for p in cfg["pods"] if p["pv"]), None)
-        envs = [[{"a": "PodGone", "pod": "p1"}], [{"a": "PodBinds", "pod": "p2"}], [{"a": "InstanceGone"}],
+        envs = [[{"a": "PodGone", "pod": "p1"}], [{"a": "PodBinds", "pod": "p2"}], [{"a": "PodBinds", "pod": "p3"}], [{"a": "InstanceGone"}],
                 [{"a": "InstanceVanishes"}], [{"a": "InstanceVanishes"}, {"a": "Ready", "ready": False}], [{"a": "Ready", "ready": False}],
                 [{"a": "DeleteClaim"}], [{"a": "DeleteNode"}], [{"a": "Tick", "d": 6}], [{"a": "TickToDeadline", "d": 1}],
                 [{"a": "TickPodStuck", "pod": "p1", "d": 0}], [{"a": "UserDeletePod", "pod": "p1", "grace": -1}], [{"a": "QAll"}]]
         if va is not None:
-            envs.append([{"a": "VolumeDetach", "pod": va}])
+            envs += [[{"a": "VolumeDetach", "pod": va}], [{"a": "VolumeDetachStart", "pod": va}]]
         pre = prelude(kind)
         sites = [i for i, s in enumerate(path) if s["a"] in ("LcRec", "NodeRec")]
         combos = [(i, k, e) for i in sites for k in range(1, 9) for e in envs]
@@ -358,10 +391,15 @@ def drain_systematic(tier, rng):
                              ("gone-" + p["name"], {2: [{"a": "PodGone", "pod": p["name"]}]})]
             variants += [("restart", {2: [{"a": "Restart"}]})]
             if tgp >= 0:
+                # the termination timestamp is rewritten between two drain passes, queue reconciles on both sides; the clock
+                # positions that follow lie around D1-grace, D1, D2-grace and D2 for the grace periods 30/60/90 (D2 = D1 +- 60/45)
                 variants += [("later", {1: [{"a": "DeadlineRel", "d": tgp + 60}]}), ("earlier", {1: [{"a": "DeadlineRel", "d": tgp - 45}]}),
+                             ("later-late", {4: [{"a": "DeadlineRel", "d": tgp + 60}]}),
                              ("later-restart", {1: [{"a": "DeadlineRel", "d": tgp + 60}], 3: [{"a": "Restart"}]})]
-            if tier == "quick":
-                variants = [variants[0]] + rng.sample(variants[1:], min(5, len(variants) - 1))
+            if tier == "quick":   # the plain sweep and the rewritten deadlines always, a sample of the rest
+                fixed = [v for v in variants if v[0] in ("plain", "later", "earlier", "later-late", "later-restart")]
+                rest = [v for v in variants if v not in fixed]
+                variants = fixed + rng.sample(rest, min(3, len(rest)))
             for vname, inserts in variants:
                 steps = list(DRAIN_PRELUDE)
                 k = 0
@@ -385,6 +423,12 @@ def drain_systematic(tier, rng):
                                                                                                api("delete", "Pod", "-", 1, err)]},
                                                    {"a": "NodeRec"}, {"a": "QAll"}, {"a": "NodeRec"}, {"a": "QAll"}]
                     behs.append({"cfg": cfg, "steps": steps, "tag": "evicterr:%s:tgp%d:%s:%s" % (name, tgp, p["name"], err)})
+                    if tgp >= 0 and (tier != "quick" or err in ("Server", "TooManyRequests")):
+                        # the pod stays queued across the failed call; the deadline moves later, then the clock runs through
+                        steps = steps[:-4] + [{"a": "DeadlineRel", "d": tgp + 60}, {"a": "NodeRec"}, {"a": "QAll"}]
+                        for o in (-121, -91, -89, -61, -59, -31, -29, -1, 1):
+                            steps += [{"a": "TickToDeadline", "d": o}, {"a": "NodeRec"}, {"a": "QAll"}]
+                        behs.append({"cfg": cfg, "steps": steps, "tag": "evicterr-later:%s:tgp%d:%s:%s" % (name, tgp, p["name"], err)})
     return behs
 
 
@@ -411,6 +455,7 @@ def generate(run, nsim_term, nsim_drain, with_term_sys=True, with_drain_sys=True
             behs.append(b)
     if with_term_sys:
         behs += term_systematic(run.tier, rng)
+        behs += term_late_binds(run.tier, rng)
     if with_drain_sys:
         behs += drain_systematic(run.tier, rng)
     if with_fine:
